@@ -186,6 +186,15 @@ func (c *Collection) CreateColumn(columnName string, column Column) error {
 		capacity = uint32(c.opts.Capacity)
 	}
 
+	// Cover every chunk the collection has already grown to, rows may be sparse
+	c.lock.RLock()
+	if chunks := len(c.commits); chunks > 0 {
+		if max := commit.Chunk(chunks - 1).Max(); max > capacity {
+			capacity = max
+		}
+	}
+	c.lock.RUnlock()
+
 	column.Grow(capacity)
 	c.cols.Store(columnName, columnFor(columnName, column))
 
